@@ -79,7 +79,11 @@ class SocWorld(World):
                 size = self._p2((w + cw - 1) // cw)
                 total = (total + size - 1) // size * size + size
                 regs.append({"w": w, "acc": rng.choice(["r", "w", "rw"]),
-                             "scope": rng.choice([None, None, "blk", 1])})
+                             "scope": rng.choice([None, None, "blk", 1, "1"]),
+                             # free-form names: one register of a bank may be called like this
+                             "name": rng.choice(["mux", "blk__ctrl", "1__ctrl", "ctrl"])
+                             if (j == 0 and rng.chance(0.2)) else
+                             ("ctrl" if rng.chance(0.15) else None)})
             aw = max(1, (total - 1).bit_length()) + rng.choice([0, 0, 1])
             return {"t": "regs", "aw": aw, "regs": regs}, aw
         if kind == "evmon":
@@ -213,7 +217,10 @@ class SocWorld(World):
                     if rc.get("scope") is not None:
                         sc = rc["scope"]
                         st.enter_context(bld.Index(sc) if isinstance(sc, int) else bld.Cluster(sc))
-                    bld.add(f"reg{ctx['n']}", reg)
+                    try:
+                        bld.add(rc.get("name") or f"reg{ctx['n']}", reg)
+                    except ValueError:
+                        bld.add(f"reg{ctx['n']}", reg)      # the free-form name was taken
                 made.append((reg, rc))
             try:
                 mm = bld.as_memory_map()
